@@ -448,4 +448,37 @@ PROPS = {
         "partial": ["label: partial (numeric lower bounds are hypotheses; targets that use MaxError: statement ApproxTargetSpec, "
                     "checked by correspondence only)"],
     },
+    "C05": {
+        # (generator, quick n, thorough n); c05 emits `cov` and `pred` lines, c05s18 drives normalizeCovering into its re-cover
+        # branch and its merge loop (repaired defects S18 / hang: corpus/C05/fixed_S18_hang.txt; each line runs under a 20 s
+        # watchdog, result token HANG).  NOT run here: c05x (`predx`: cap predicates judged with a slack of 2^-50 relative to
+        # r2 only, fails at the 1e-17 rad level) and c05polar (explores the KNOWN finding class `…-polar-rect`).
+        "generators": [("c05", 40000, 400000), ("c05s18", 1600, 16000)],
+        "modules": ["S2.Coverer", "S2.CellUnion", "S2.CellID", "S2.STUV", "S2.Exact", "S2.Pred", "S2.F64"],
+        "rule": "one line = one region under one coverer configuration: caps, lat-lng rectangles (polar, degenerate, antimeridian, "
+                "full, empty), cells, cell unions (with holes / far components), a user region whose CellUnionBound() is its own "
+                "cell list, convex regular loops of 3..64 vertices, star-shaped loops, polygons with a hole (and a shell inside the hole), "
+                "polylines, points; radius log-uniform from 1e-9 to the whole sphere (as large as the MinLevel budget of 4000 cells "
+                "allows), centred at poles, on the antimeridian, at cube corners / edges / face centres, cell vertices and random places; "
+                "MinLevel in {0,1,2,3,5,7,10,20,29,30,-3,35}, MaxLevel in {0,1,4,8,12,20,29,30,-2,40, MinLevel-1..-3, MinLevel+0..4}, "
+                "LevelMod in {1,2,3,0,-1,4,7}, MaxCells in {0,1,2,3,4,5,8,20,100,500..2000,10000,-1,-100}. Judged: level discipline of all "
+                "five results, every supplied region point (re-verified exactly by the oracle for caps, cells, cell unions, convex loops) "
+                "lies in a cell of Covering / CellUnion / FastCovering (exact closed-cell test), every interior cell lies in the region "
+                "(exact for caps, cells, cell unions, convex loops). pred lines: (region, cell) pairs grazing the boundary (cap radius = "
+                "distance to a cell vertex / edge +- k ulp, loop edge or vertex through a cell vertex +- 1e-15..1e-3; thin rectangles "
+                "(height 0..1e-6) at mid latitudes and 1e-9..1e-2 rad from a pole with the leaf cells / ancestors of their points, judged "
+                "against Go's own Rect.ContainsPoint). Shard 0 always starts with the lines of corpus/C05/known_polar_rect.txt (known "
+                "finding: Rect.IntersectsCell next to a pole, clauses `…-polar-rect` = region kind rect and offending point with "
+                "|z| >= 1 - 1e-9). "
+                "non-trivial = cov line whose Covering has at least 2 cells, or a pred line; distinct = distinct (op, arguments)",
+        "nontrivial": lambda l: l.startswith("pred") or (l.startswith("cov ") and "," in l.split(" = ")[1].split(" ")[2]),
+        "trusted_base": ["region predicates of Rect, Polygon, Polyline, non-convex Loop are not judged exactly: their supplied points are "
+                         "those Go's own ContainsPoint accepts (polyline: its vertices)",
+                         "cell geometry (Cell.BoundUV) is the soft-float STUV model, compared bit-exactly with Go by C01",
+                         "interior coverings of more than 200 cells are judged on 200 evenly spread cells"],
+        "assumptions": ["c05 keeps MaxCells >= -100; configurations with MaxLevel < MinLevel that reach the re-cover branch of "
+                        "normalizeCovering, very negative MaxCells, user bounds of > 100 cells and user bounds with leaf cells are in c05s18",
+                        "rect pred lines are judged Go-vs-Go (Rect.ContainsCell / IntersectsCell against Rect.ContainsPoint on the cell's "
+                        "sample points), not exactly"],
+    },
 }
